@@ -72,7 +72,7 @@ def produce(c, binhash):
         mstats["generated"] += r["generated"]; mstats["distinct"] += r["distinct"]
         mstats["configs"].append("MC_Harbor depth %d: %d generated / %d distinct states, invariants M_Custody M_Count M_Totals M_Backed M_Floor M_Ceiling M_NonNeg M_V1Held hold" % (t["mdepth"], r["generated"], r["distinct"]))
         vlib.run_vh(["harbor", "--acts", actsfile, "--out", logf, "--seed", str(c.seed), "--runs", str(t["runs"]), "--steps", str(t["steps"]),
-                     "--depth", str(t["depth"]), "--maxnodes", str(t["maxnodes"]), "--sweep", sweepfile, "--sweepmax", str(t["sweepmax"])], timeout=3000)
+                     "--depth", str(t["depth"]), "--maxnodes", str(t["maxnodes"]), "--sweep", sweepfile, "--sweepmax", str(t["sweepmax"]), "--esm"], timeout=3000)
         tr = vlib.trace_check_chunked(d, "Trace_Harbor", "Trace_Harbor.cfg", logf, chunk_nodes=12000, ptr_fields=["st.root"],
                                       workers=8 if c.tier == "thorough" else 4, timeout=3400, heap="8g")
         return dict(fails=tr["fails"], stats=tr["stats"], distinct=tr.get("distinct"), generated=tr.get("generated"), wall=tr["wall"], model=mstats)
